@@ -103,13 +103,58 @@ let parse_case (c : Sx.t) : case =
    implementation picked is not the one the modelled heap pops (outcome OMismatch (_, 6)) the run is
    repeated with the queue as a map (resolve: any package of maximal priority is accepted) so that the
    other fields stay comparable; the disagreement is reported in the (heap ...) field (C07, C14). *)
+(* The GENERATING model (Proofs/SolverGen.v, resolve_g): when the harness's strategy is a pure function of (package, set)
+   - newest / oldest version x static / count / count-then priorities, recorded in the case as (strat ...) - the typed
+   provider is rebuilt from the registry and that strategy (the iteration order of a dependency map is taken from the
+   recorded answer) and resolve_g, given nothing but the provider, must produce the whole recorded call trace and the
+   same outcome.  Field (gen ok) / (gen differs first-difference generated-length recorded-length). *)
+let gen_field (c : case) (tr : (RZ.range, z) event list) (o_h : (RZ.range, z) outcome) : str =
+  let strat = List.find_map (function Sx.L [Sx.A "strat"; Sx.A ch; pr] -> Some (ch, pr) | _ -> None) c.extra in
+  match strat with
+  | None -> "(gen ok)"
+  | Some _ when List.mem (EvCancel false) tr -> "(gen ok)"
+  | Some (ch, pr) ->
+    let versions p = match List.assoc_opt p c.reg with Some vs -> List.sort compare (List.map fst vs) | None -> [] in
+    let inside p (s : RZ.range) =
+      List.filter (fun v -> List.exists (fun sg -> D_ranges.seg_has sg v) s) (versions (int_of_n p)) in
+    let prio p s = match pr with
+      | Sx.L (Sx.A "static" :: vs) -> (match List.nth_opt vs (int_of_n p) with Some x -> Sx.int x | None -> 0)
+      | Sx.L [Sx.A "count"] -> - (List.length (inside p s))
+      | Sx.L [Sx.A "countthen"; b] ->
+        let n = List.length (inside p s) in (if Sx.int b = 1 then n else - n) * 64 + int_of_n p
+      | _ -> failwith "strat" in
+    let pg = {
+      p_cancel = (fun _ -> true);
+      p_prio = (fun _ p s -> z_of_int (prio p s));
+      p_choose = (fun _ p s -> match inside p s with
+        | [] -> CNone
+        | l -> CSome (z_of_int (if ch = "newest" then List.nth l (List.length l - 1) else List.hd l)));
+      p_deps = (fun _ p v ->
+        match List.find_map (function EvDeps (p', v', a) when p' = p && v' = v -> Some a | _ -> None) tr with
+        | Some a -> a
+        | None -> (match List.assoc_opt (int_of_n p) c.reg with
+            | Some vs -> (match List.assoc_opt (int_of_z v) vs with
+                | Some (Some ds) -> DAvail (List.map (fun (q, s) -> (n_of_int q, s)) ds)
+                | _ -> DUnavail N0)
+            | None -> DUnavail N0)) } in
+    let ((((o, _), _), _), gtr) = resolve_g RZ.range_vs Z.eqb pg fuel (n_of_int c.rootp) (z_of_int c.rootv) in
+    if gtr = tr && outcome_sx o = outcome_sx o_h then "(gen ok)"
+    else begin
+      let rec first_diff i a b = match a, b with
+        | x :: a', y :: b' -> if x = y then first_diff (i + 1) a' b' else i
+        | _, _ -> i in
+      sp "(gen differs %d %d %d)" (first_diff 0 gtr tr) (List.length gtr) (List.length tr)
+    end
+
 let run_model (c : case) =
   let tr = List.map model_ev c.trace in
   let r = resolve_h RZ.range_vs Z.eqb fuel (n_of_int c.rootp) (z_of_int c.rootv) tr in
   match r with
   | (((OMismatch (n, w), _), _), _) when int_of_n w = 6 ->
-    (resolve RZ.range_vs Z.eqb fuel (n_of_int c.rootp) (z_of_int c.rootv) tr, sp "(heap pick-differs %d)" (int_of_nat n))
-  | _ -> (r, "(heap ok)")
+    let r' = resolve RZ.range_vs Z.eqb fuel (n_of_int c.rootp) (z_of_int c.rootv) tr in
+    let (((o, _), _), _) = r' in
+    (r', sp "(heap pick-differs %d) %s" (int_of_nat n) (gen_field c tr o))
+  | (((o, _), _), _) -> (r, "(heap ok) " ^ gen_field c tr o)
 
 (* memo of the last case so that eval and oracle share one model run *)
 let last : (Sx.t * ((RZ.range, z) outcome * (RZ.range, z) state * (((n * RZ.range) list * (n * (z * RZ.range)) list) * nat) list)) option ref = ref None
